@@ -1797,9 +1797,12 @@ def c02_cases(tier, seed):
         for cmd in cmds:
             b = b"".join(p_tty.key_bytes(k) for k in cmd.keys)
             chunks.append(b)      # every intermediate screen is looked at (a state of a recorded class taints what follows)
-        cases.append(script_case(cmds, mode=mode, cols=cols, prompt=prompt, history=hist, hints=hints, chunks=chunks,
-                                 timeout=0 if mode == "vi" else rng.choice(["none", 0]),
-                                 initial=p_tty.mk_initial(rng, 0.25, C02_TEXT + ["\n"])))
+        c = script_case(cmds, mode=mode, cols=cols, prompt=prompt, history=hist, hints=hints, chunks=chunks,
+                        timeout=0 if mode == "vi" else rng.choice(["none", 0]),
+                        initial=p_tty.mk_initial(rng, 0.25, C02_TEXT + ["\n"] + (["\t", "\t"] if cols >= 20 else [])))
+        if rng.random() < 0.3:
+            c.meta["tab_stop"] = rng.choice([1, 2, 3, 4, 8, 16])
+        cases.append(c)
     # hints that are really shown: the typed line is a prefix of a hint whose rest ends exactly at, just before or just
     # after the right margin (the line itself possibly ending in a line break), then motions, completion of the hint, edits,
     # and every way of ending the read (Enter, and in vi C-d on a non-empty line: the hint must be gone when the read returns)
@@ -1867,7 +1870,7 @@ def eval_c02(res, cases_out, stream, width):
         except UnicodeDecodeError:
             continue
         prompt = strip_ansi([ord(ch) for ch in c.prompt])
-        scr = vt.Screen(c.cols, width)
+        scr = vt.Screen(c.cols, width, int(c.meta.get("tab_stop", 8)))
         fed = base
         nobs_before = [sum(1 for l in raw["obs"][:m] if l.startswith("K ")) for m in omarks]
         # marks[k] / omarks[k]: output length and observation count once chunk k-1 has been consumed (k=0: start-up)
@@ -1888,7 +1891,7 @@ def eval_c02(res, cases_out, stream, width):
             cmd, (text, pos), after, ob = t.steps[j]
             hint = ob[5] or []
             pre, suf = split_at(text, pos)
-            rows, cur, cur_next, exp = vt.layout(c.cols, width, prompt + pre, suf, hint)
+            rows, cur, cur_next, exp = vt.layout(c.cols, width, prompt + pre, suf, hint, tab=int(c.meta.get("tab_stop", 8)))
             if exp.known_class:
                 # recorded findings: rustyline's row arithmetic and the terminal disagree on these texts, and what is
                 # drawn afterwards is affected too: the rest of this script is not judged
@@ -1924,7 +1927,7 @@ def eval_c02(res, cases_out, stream, width):
                 except UnicodeDecodeError:
                     continue
                 line = t.steps[-1][2][1]
-                rows, cur, _, exp = vt.layout(c.cols, width, prompt + line, [], [])
+                rows, cur, _, exp = vt.layout(c.cols, width, prompt + line, [], [], tab=int(c.meta.get("tab_stop", 8)))
                 if exp.known_class:
                     continue
                 stats["final"] += 1
@@ -1942,6 +1945,7 @@ def eval_c02(res, cases_out, stream, width):
 C02_WITNESS = {
     "K_fullrow_lf": dict(cols=10, prompt=">> ", keys=["a", "b", "c", "d", "e", "f", "C-v", "C-j", "Left", "g", "F12"]),
     "K_zw_after_lf": dict(cols=20, prompt="> ", keys=["a", "C-v", "C-j", "́", "x", "F12"]),
+    "K_tab_margin": dict(cols=20, prompt="> ", keys=["a"] * 15 + ["C-v", "Tab", "x", "F12"]),
 }
 
 
